@@ -32,7 +32,7 @@ def _run(prog, chk):
     chk.not_decided = ["that every extracted chain recomputes the root", "canonical forest shape", "index bound of insertNode's stack slot "
                        "(relies on the level invariant checked above)"]
     chk.rule("C16.reset", "reset re-creates the state of a new block signer, including the order of leaf processors", floor=4)
-    chk.rule("C16.levels", "nodes are created / joined only under valid levels and within the configured maximum", floor=6)
+    chk.rule("C16.levels", "nodes are created / joined only under valid levels and within the configured maximum", floor=7)
     chk.rule("C16.path", "path extraction: direction, sibling, level correction", floor=6)
 
     # ------------------------------------------------------------------ reset vs new
@@ -124,6 +124,15 @@ def _run(prog, chk):
     chk.ob("C16.levels", "addLeaf:max-height", w is None,
            "with a maximum tree level set, a leaf is accepted only if the resulting height (with processor overhead) stays within it",
            loc=fa.loc(), fn=fa, path=None if w is None else path_lines(fa, w))
+    # with or without a configured maximum the closed tree needs a root level within 0..0xff: the predicted closing height is
+    # compared with the maximum or with the end of the level range on every path to the creation of the leaf node
+    anycheck = g_cmp({"<=", "<"}, lambda f, x: "calculateHighestLevel(" in show(f.deep(x), f),
+                     lambda f, x: (lvalue_key(x, f) or show(f.deep(x), f)).endswith("maxTreeLevel") or (is_int(f.resolve(strip(x))) and strip(f.resolve(strip(x)))["v"] <= 0x100),
+                     "closing height within the level range")
+    w = must_pass(fa, blocks, anycheck)
+    chk.ob("C16.levels", "addLeaf:closing-level", w is None,
+           "a leaf is accepted only if the tree can still be closed with a root level within 0..0xff (maximum configured or not): otherwise closing "
+           "fails after the forest has been taken apart and every accepted leaf loses its proof", loc=fa.loc(), fn=fa, path=None if w is None else path_lines(fa, w))
     hl = [n for b, i, n in fa.calls("calculateHighestLevel")]
     okov = bool(hl) and "levelWithOverhead(" in provenance(fa, *[(b, i) for b, i, n in fa.calls("calculateHighestLevel")][0], hl[0]["a"][1])
     chk.ob("C16.levels", "addLeaf:overhead", okov, "the height check uses the level including the leaf processors' overhead", loc=fa.loc(), fn=fa)
